@@ -272,7 +272,10 @@ func (a *AnySchema) checkAndConvert(data any) (any, error) {
 			if err != nil {
 				return nil, ConstraintErrorAddPathSegment(err, fmt.Sprintf("{%v}", k))
 			}
-			v := t.MapIndex(k)
+			v, err := mapEntryValue(t, k)
+			if err != nil {
+				return nil, err
+			}
 			value, err := a.checkAndConvert(v.Interface())
 			if err != nil {
 				return nil, ConstraintErrorAddPathSegment(err, fmt.Sprintf("[%v]", key))
